@@ -1,7 +1,7 @@
 """Shared spec functions (DESIGN section 3).  Total recursive Python functions: CPython runs
 them as written; the symbolic back end turns each into an uninterpreted symbol whose
 definition is unfolded at the applications that occur."""
-from pyvc.api import spec, lemma, implies, Int, Real, Bool, Str, CSet, Seq, Ballot, Profile, Opt, dsum
+from pyvc.api import spec, lemma, implies, Int, Real, Bool, Str, CSet, Seq, Ballot, Profile, Opt, dsum, StateRef, reversed_seq
 
 
 @spec
@@ -159,3 +159,42 @@ def all_untied_prefix(bs: Seq(Ballot), j: Int, n: Int) -> Bool:
 @lemma(induct="n")
 def untied_implies_ranked(bs: Seq(Ballot), n: Int) -> Bool:
     return implies(all_untied(bs, n), all_ranked(bs, n))
+
+
+# ---------------------------------------------------------------- recorded rounds (C09)
+@spec
+def cat_elected(states: Seq(StateRef), n: Int) -> Seq(CSet):
+    """concatenation of the non-placeholder `elected` records of the first n states"""
+    return () if n <= 0 else cat_elected(states, n - 1) + (states[n - 1].elected if states[n - 1].elected != (frozenset(),) else ())
+
+
+@lemma(induct="n")
+def cat_elected_take(states: Seq(StateRef), i: Int, n: Int) -> Bool:
+    return implies(0 <= n and n <= i and i <= len(states), cat_elected(states[:i], n) == cat_elected(states, n))
+
+
+@spec
+def cat_eliminated_rev(src: Seq(StateRef), n: Int) -> Seq(CSet):
+    """over the first n states of `src` (already listed latest round first): their non-placeholder `eliminated`
+    records, each reversed, concatenated"""
+    return () if n <= 0 else cat_eliminated_rev(src, n - 1) + (
+        reversed_seq(src[n - 1].eliminated) if src[n - 1].eliminated != (frozenset(),) else ())
+
+
+@spec
+def nonempty_only(r: Seq(CSet), n: Int) -> Seq(CSet):
+    """the non-empty positions among the first n, in order"""
+    return () if n <= 0 else nonempty_only(r, n - 1) + ((r[n - 1],) if len(r[n - 1]) != 0 else ())
+
+
+@spec(opaque=True)
+def step_fn(profile: Profile, state: StateRef) -> Profile:
+    """the profile a rule's _run_step(profile, state, store_states=False) returns (uninterpreted: replay is a function of
+    its two arguments -- the per-rule frame obligations show it stores nothing; determinism holds when no random choice is made)"""
+    raise NotImplementedError("opaque")
+
+
+@spec
+def replay(p: Profile, states: Seq(StateRef), n: Int) -> Profile:
+    """the initial profile pushed through the first n recorded rounds"""
+    return p if n <= 0 else step_fn(replay(p, states, n - 1), states[n - 1])
